@@ -164,7 +164,34 @@ def rounds_of(cfg, evs):
             rounds.append(cur)
         elif e.kind == "do" and e.method in GUARDS and e.text == "cancel" and cur is not None:
             cur["cancelled"] = True
+        elif e.kind == "do" and e.method in GUARDS and cur is not None and e.text.split()[0] in ("changeTo", "changeWith"):
+            t = e.text.split()
+            cur["made"] = "%d>%s:%s" % (e.sid, t[1], t[2] if t[0] == "changeWith" else "-")
     return rounds
+
+
+def redirects_evaluated(cfg, op, api_name, evs):
+    """a request made by a guard is evaluated in the next round (unless the substitution limit is reached, or it
+    repeats an accepted external payload-free request to the same destination, which the library drops)"""
+    rounds = rounds_of(cfg, evs)
+    current, iters = None, 0
+    for k, r in enumerate(rounds):
+        iters += 1
+        if not r["cancelled"] and r["pend"] not in ("-", None):
+            current = r["pend"]
+        made = r.get("made")
+        nxt = rounds[k + 1] if k + 1 < len(rounds) else None
+        if made is None:
+            continue
+        if iters >= cfg.L:
+            continue
+        if current is not None and current == "255>%s:-" % made.split(">")[1].split(":")[0]:
+            continue
+        if nxt is None:
+            return "op%d (%s): a guard of round %d requested %s and the substitution limit (%d) was not reached, but the request was never evaluated" % (op, api_name, k + 1, made, cfg.L)
+        if nxt["pend"] != made:
+            return "op%d (%s): a guard of round %d requested %s, but round %d evaluates %s" % (op, api_name, k + 1, made, k + 2, nxt["pend"])
+    return None
 
 
 def life_of(evs):
@@ -178,7 +205,14 @@ def tr_dest(t):
 PROCESSING = ("update", "react", "immediateChangeTo", "immediateChangeWith")
 
 
-def c02(cfg, events):
+def c02(cfg, events, case=None):
+    v = c02_outcome(cfg, events)
+    if v or not case:
+        return v
+    return latest_request(cfg, events, case)
+
+
+def c02_outcome(cfg, events):
     """outcome = destination of the last request that survived its guards (needs every guard and
     lifecycle callback visible)"""
     if not cfg.all_defined(GUARDS + LIFE) or any(cfg.inj):
@@ -193,6 +227,9 @@ def c02(cfg, events):
         if api.name not in PROCESSING or before is None:
             continue
         rounds = rounds_of(cfg, evs)
+        v = redirects_evaluated(cfg, op, api.name, evs)
+        if v:
+            return v
         surv = None
         for r in rounds:
             if not r["cancelled"] and r["pend"] not in ("-", None):
@@ -257,7 +294,7 @@ def c05(cfg, events):
     return None
 
 
-def c06(cfg, events):
+def c06(cfg, events, case=None):
     for e in events:
         if e.kind != "cb":
             continue
@@ -267,7 +304,8 @@ def c06(cfg, events):
         for j, ch in enumerate(e.f["act"]):
             if (ch == "1") != (mact == j):
                 return "control.isActive(%d) is %s but the machine reports state %d active: %s" % (j, ch, mact, e.raw)
-    return None
+    # a request made through a control records the calling state as its origin
+    return provenance(cfg, events, case) if case else None
 
 
 def c12(cfg, events):
@@ -398,12 +436,9 @@ class PlanTracker:
 
 
 # ------------------------------------------------------------------------------------------ C07
-def c07(cfg, events, case=None):
-    """every transition shown to user code (request / pending / current / previous) was made by somebody with
-    exactly that origin, destination and payload; every task shown in a plan was appended like that; the
-    transition the lifecycle callbacks see as current is the request that survived the guards"""
-    if not cfg.payload:
-        return None
+def provenance(cfg, events, case):
+    """every transition shown to user code was requested by somebody with exactly that origin, destination and
+    payload; every task shown in a plan was appended like that"""
     ops = case_ops(case)
     made, tasks = set(), set()
     done_ops = -1
@@ -445,6 +480,56 @@ def c07(cfg, events, case=None):
             for t in pl or []:
                 if t not in tasks:
                     return "the plan shows the task %s, but no such task (origin, destination, payload) was ever appended: %s" % (t, e.raw)
+    return None
+
+
+def latest_request(cfg, events, case):
+    """a request replaces the outstanding one at once: the next callback of the same phase sees exactly the
+    request just made (caller as origin, its destination, its payload) as the machine's outstanding request,
+    and the first callback of update()/react() sees the request made from outside since the last processing"""
+    ops = case_ops(case)
+    ext = {}        # inst -> the external request outstanding (set by an accepted changeTo/changeWith call)
+    neutral = ("query", "save", "succeed", "fail", "planAppend", "planClear", "planRemove", "attachLogger", "changeTo", "changeWith")
+    for (inst, op), evs in ops_of(events):
+        if op < 0 or op >= len(ops):
+            continue
+        w = ops[op]
+        rejected = any(e.kind == "rejected" for e in evs)
+        if w[0] in ("changeTo", "changeWith") and not rejected:
+            ext[inst] = "255>%s:%s" % (w[2], w[3] if w[0] == "changeWith" else "-")
+            continue
+        last = ext.get(inst) if w[0] in ("update", "react") and not rejected else None
+        if w[0] not in neutral or w[0] in ("copy",):
+            ext.pop(inst, None)
+        if w[0] == "copy" and not rejected and len(w) > 2 and int(w[2]) in ext:
+            ext[inst] = ext[int(w[2])]
+        if w[0] not in PHASE_FAM:
+            continue
+        fam = PHASE_FAM[w[0]]
+        for e in evs:
+            if e.kind == "cb":
+                if e.method not in fam:
+                    break       # plan step / processing begins: the request is consumed or overridden from here on
+                shown = e.f.get("req")
+                if last is not None and shown not in (None, "~") and shown != last:
+                    return "op%d: the outstanding request should be %s (the most recent one made), but %s() of state %d sees %s: %s" % (op, last, e.method, e.sid, shown, e.raw)
+            elif e.kind == "do":
+                t = e.text.split()
+                if t[0] == "changeTo":
+                    last = "%d>%s:-" % (e.sid, t[1])
+                elif t[0] == "changeWith":
+                    last = "%d>%s:%s" % (e.sid, t[1], t[2])
+    return None
+
+
+def c07(cfg, events, case=None):
+    """payload integrity: provenance of every shown transition / task, the most recent request is the one
+    outstanding, the lifecycle callbacks see the request that survived the guards as current"""
+    if not cfg.payload:
+        return None
+    v = provenance(cfg, events, case) or latest_request(cfg, events, case)
+    if v:
+        return v
     # the surviving request is what enter()/reenter()/exit() see as current
     if cfg.all_defined(GUARDS + LIFE) and not any(cfg.inj):
         for (inst, op), evs in ops_of(events):
@@ -470,16 +555,21 @@ def plan_walk(cfg, events, case, want):
     ops = case_ops(case)
     act, known = {}, {}
     consumed = {}          # inst -> {origin: op in which a task of that origin last fired, no success report since}
+    outst = {}             # inst -> {state: a success report is outstanding (True) / certainly not (False)}; absent = unknown
     fail_out, succ_out = {}, {}    # inst -> a failure / success report happened since the statuses were last wiped
     fail_ever = {}
     appended = {}          # inst -> a task was appended since activation (None = unknown)
     head_pf = cfg.head and cfg.defined(255, "planFailed")
     head_ps = cfg.head and cfg.defined(255, "planSucceeded")
 
+    def wipe_status(inst):
+        outst[inst] = {k_: False for k_ in range(cfg.n)}
+
     def report(inst, target, ok):
         if ok:
             succ_out[inst] = True
             consumed.setdefault(inst, {}).pop(target, None)
+            outst.setdefault(inst, {})[target] = True
         else:
             fail_out[inst] = True
             fail_ever[inst] = True
@@ -494,18 +584,21 @@ def plan_walk(cfg, events, case, want):
         # ---- effect of the op itself on the bookkeeping (before its events)
         if not rejected:
             if name == "construct":
+                wipe_status(inst)
                 consumed[inst], fail_out[inst], succ_out[inst], fail_ever[inst] = {}, False, False, False
                 appended[inst] = False
                 known[inst] = []
             elif name == "copy":
                 src = int(w[2]) if len(w) > 2 else None
                 consumed[inst] = dict(consumed.get(src, {}))
+                outst[inst] = dict(outst.get(src, {}))
                 for d_ in (fail_out, succ_out, fail_ever, appended):
                     d_[inst] = d_.get(src)
                 known[inst] = list(known[src]) if known.get(src) is not None else None
             elif name in ("enter", "exit", "load", "destroy"):
                 consumed[inst] = {}
                 if name in ("load", "destroy"):
+                    outst[inst] = {}
                     appended[inst] = None
                     known[inst] = None
             elif name in ("succeed", "fail") and len(w) > 2:
@@ -515,6 +608,8 @@ def plan_walk(cfg, events, case, want):
                     appended[inst] = True
                 if known.get(inst) is not None:
                     known[inst] = apply_plan_edit(cfg, known[inst], [name] + w[2:])
+                if name == "planClear":
+                    wipe_status(inst)
         cyc = api is not None and api.name in PHASE_FAM and not rejected
         a = act.get(inst)
         if cyc:
@@ -543,6 +638,8 @@ def plan_walk(cfg, events, case, want):
                     appended[inst] = True
                 if known.get(inst) is not None:
                     known[inst] = apply_plan_edit(cfg, known[inst], t)
+                if t[0] == "planClear":
+                    wipe_status(inst)
 
         active_failed = succ_now = False
         for e in phase:
@@ -568,6 +665,8 @@ def plan_walk(cfg, events, case, want):
                 for (o, d) in fires:
                     if o != a:
                         return "op%d: a task %d>%d fired while the active state is %s" % (op, o, d, a)
+                    if outst.get(inst, {}).get(o) is False:
+                        return "op%d: a task %d>%d fired although no success report of state %d is outstanding (none was made since the state was last exited / its last report was consumed / the plan was cleared)" % (op, o, d, o)
                     j = consumed.get(inst, {}).get(o)
                     if j is not None and j != op:
                         return "op%d: a task with origin %d fired, but the success report of state %d was already consumed by the task fired in op%d and no new report was made" % (op, o, o, j)
@@ -580,6 +679,7 @@ def plan_walk(cfg, events, case, want):
                 return "op%d: tasks %s fired in a cycle that delivers planFailed()" % (op, fires)
             for o, _ in fires:
                 consumed.setdefault(inst, {})[o] = op
+                outst.setdefault(inst, {})[o] = False
             # ---- after the step
             first_obs = next((e for e in rest if e.kind in ("cb", "api") and parse_plan(e.f.get("plan")) is not None), None)
             npf = [e for e in rest if e.kind == "cb" and e.layer == "S" and e.sid == 255 and e.method in PLAN_METHODS]
@@ -626,6 +726,9 @@ def plan_walk(cfg, events, case, want):
                             return "op%d: the plan is %s after %s() returned: %s" % (op, nxt.f.get("plan"), e.method, nxt.raw)
                     fail_out[inst] = succ_out[inst] = False
                     consumed[inst] = {}
+                    # PlanT::clear() after the callback returns wipes every status bit (reports made inside the
+                    # callback included); unknown until then
+                    outst[inst] = {}
                 if e.kind in ("cb", "api"):
                     v = see(e)
                     if v:
@@ -633,9 +736,13 @@ def plan_walk(cfg, events, case, want):
                 elif e.kind == "do":
                     act_on(e)
         if api is not None:
+            before_act = act.get(inst)
             act[inst] = int(api.f["act"])
+            if before_act is not None and before_act != 255 and before_act != act[inst]:
+                outst.setdefault(inst, {})[before_act] = False      # S_::deepExit clears the exited state's statuses
             if api.name in ("exit",) and not rejected:
                 appended[inst] = False
+                wipe_status(inst)
     return None
 
 
@@ -919,7 +1026,7 @@ def metamorphic(prop, case, impl_lines, rerun):
 
 ORACLES = {"C01": c01, "C02": c02, "C03": c02, "C04": c04, "C05": c05, "C06": c06, "C11": c02, "C12": c12,
            "C07": c07, "C08": c08, "C09": c09, "C10": c10, "C16": c16, "C17": c17}
-NEEDS_CASE = ("C07", "C08", "C09", "C10", "C16", "C17")
+NEEDS_CASE = ("C02", "C03", "C06", "C07", "C08", "C09", "C10", "C11", "C16", "C17")
 
 
 def run(prop, case, impl_lines, rerun=None):
@@ -934,7 +1041,7 @@ def run(prop, case, impl_lines, rerun=None):
             cfg_line = case[1]
         cfg, evs = Cfg(cfg_line), parse(impl_lines)
         if prop in NEEDS_CASE:
-            if case is None:
+            if case is None and prop not in ("C02", "C03", "C06", "C11"):
                 return None
             v = f(cfg, evs, case)
             return v or metamorphic(prop, case, impl_lines, rerun)
